@@ -232,6 +232,7 @@ class Table:
             return self
 
         if data_is_sequence_of_dicts:
+            n_dicts = len(data)
             data = {k:[d.get(k,Missing) for d in data] for k in set().union(*(d.keys() for d in data))}
             data_is_mapping_of_cols = True
 
@@ -243,7 +244,7 @@ class Table:
             pad_cols = old-new
 
             if new_cols: old_len = len(self)
-            if pad_cols: dat_len = 1 if not data else len(next(iter(data.values())))
+            if pad_cols: dat_len = n_dicts if data_is_sequence_of_dicts else len(next(iter(data.values())))
 
             for hdr in new_cols:
                 self._data[hdr] = list(chain(repeat(Missing, old_len), data[hdr]))
